@@ -32,6 +32,11 @@ def oracle_keys(kind, payload):
         return None
 
 
+# the Coq decoders of C05 decide decodability as well: Some = accepted, None = the real decoder raises
+MODEL_DECODERS = {0x35: "decode_sensor", 0xB9: "decode_product", 0xD5: "decode_schema", 0xB1: "decode_ecomax_params",
+                  0xBD: "decode_alerts", 0xB6: "decode_schedules", 0xB2: "decode_mixer_params"}
+
+
 def decodable_oracle(kind, payload):
     """Does the real decoder accept this payload (on a fresh device)?"""
     from pyplumio.devices.ecomax import EcoMAX
@@ -106,7 +111,9 @@ class C09(Prop):
             "senders without a device class (0x56, 0x00) and from ecoSTER; 1-3 consumers, often more bad frames than consumers; frames arrive in "
             "one burst or one at a time with the loop settled in between (paced); in bursts often with a slow user subscriber of the device entry, so that a backlog of frames builds up on the read queue while the entry is published; a quarter of the sequences contain a run of 2-8 undecodable frames of one kind followed by valid frames of that kind; `delivered` = handle_frame called with the frame and every name its payload decodes to dispatched on the device.  Non-trivial = "
             "at least one undecodable / device-less frame followed by a valid one; distinct by case content.")
-    assumptions = ["whether a payload decodes is an oracle (the real decoder, evaluated on a fresh device)",
+    assumptions = ["whether a payload decodes is decided by the Coq decoders of C05 for the seven kinds that have one (sensor data, UID, regulator "
+                   "data schema, ecoMAX / mixer parameters, alerts, schedules) and compared frame by frame with the verdict of the real decoder "
+                   "on a fresh device; for the other kinds it is an oracle (the real decoder)",
                    "`answered` = the reply is transmitted or waiting in the write queue when the input ends"]
 
     def generate(self, rng, tier):
@@ -162,6 +169,19 @@ class C09(Prop):
             c["_pf"] = [[f["tag"], f["sender"], f["kind"], decodable_oracle(f["kind"], bytes(f["payload"]))] for f in c["frames"]]
         return c["_pf"]
 
+    def _model_decodable(self, cases):
+        """decodability of every frame of the 7 kinds with a Coq decoder, decided by the model"""
+        by_kind = {}
+        for ci, c in enumerate(cases):
+            for fi, f in enumerate(c["frames"]):
+                if f["kind"] in MODEL_DECODERS and f["sender"] == 0x45:
+                    by_kind.setdefault(f["kind"], []).append((ci, fi, bytes(f["payload"])))
+        out = {}
+        for kind, items in by_kind.items():
+            for (ci, fi, _), r in zip(items, model.call_many(MODEL_DECODERS[kind], [p for _, _, p in items])):
+                out[(ci, fi)] = bool(r != [])
+        return out
+
     def run_impl(self, c):
         pf = self._pframes(c)
         r = vloop.run(_run, c["frames"], c["net"], c["consumers"], c.get("paced", False), c.get("slow_entry", 0))
@@ -180,12 +200,21 @@ class C09(Prop):
                     payload_ok = False
         return {"handed_valid": handed_valid, "replies": replies, "unfinished": r["unfinished"], "alive": r["alive"],
                 "producer_alive": r["producer_alive"], "shutdown_ok": r["shutdown_ok"], "netinfo_payload_ok": payload_ok,
-                "one_object_per_address": r["devices"] <= 2}
+                "one_object_per_address": r["devices"] <= 2,
+                # what the REAL decoder says about each frame of a kind that has a Coq decoder (compared with the model's verdict)
+                "decodable": [[fi, bool(p[3])] for fi, (f, p) in enumerate(zip(c["frames"], pf)) if f["kind"] in MODEL_DECODERS and f["sender"] == 0x45]}
 
     def model_many(self, cases):
-        res = model.call_many("run_pipeline", [[True, c["consumers"], self._pframes(c)] for c in cases])
+        md = self._model_decodable(cases)
+        # the pipeline model runs on the MODEL's verdicts where there is a Coq decoder (the oracle only for the other kinds)
+        pfs = []
+        for ci, c in enumerate(cases):
+            pfs.append([[p[0], p[1], p[2], md.get((ci, fi), p[3])] for fi, p in enumerate(self._pframes(c))])
+        res = model.call_many("run_pipeline", [[True, c["consumers"], pf] for c, pf in zip(cases, pfs)])
         return [{"handed_valid": r[0], "replies": [list(p) for p in r[1]], "unfinished": r[2], "alive": r[3], "producer_alive": 1,
-                 "shutdown_ok": True, "netinfo_payload_ok": True, "one_object_per_address": True} for c, r in zip(cases, res)]
+                 "shutdown_ok": True, "netinfo_payload_ok": True, "one_object_per_address": True,
+                 "decodable": [[fi, md[(ci, fi)]] for fi in range(len(c["frames"])) if (ci, fi) in md]}
+                for ci, (c, r) in enumerate(zip(cases, res))]
 
     def spec_many(self, cases, behaviours):
         res = model.call_many("P09", [[self._pframes(c), bytes(b["handed_valid"]), b["replies"], b["unfinished"]]
